@@ -335,8 +335,46 @@ impl<'tcx> Cx<'tcx> {
                     o.set("valkind", J::s("slice"));
                 }
             }
-            ConstValue::Indirect { .. } => {
+            ConstValue::Indirect { alloc_id, offset } => {
                 o.set("valkind", J::s("indirect"));
+                // a `&str` stored in memory (a field of a tuple constant): fat pointer = (ptr, len)
+                if matches!(ty.kind(), ty::Ref(_, inner, _) if inner.is_str()) {
+                    if let mir::interpret::GlobalAlloc::Memory(a) = tcx.global_alloc(alloc_id) {
+                        let alloc = a.inner();
+                        let ps = tcx.data_layout.pointer_size().bytes() as usize;
+                        let off = offset.bytes() as usize;
+                        let raw = alloc.inspect_with_uninit_and_ptr_outside_interpreter(0..alloc.len());
+                        if off + 2 * ps <= raw.len() && ps == 8 {
+                            let mut b8 = [0u8; 8];
+                            b8.copy_from_slice(&raw[off..off + 8]);
+                            let poff = u64::from_le_bytes(b8) as usize;
+                            b8.copy_from_slice(&raw[off + 8..off + 16]);
+                            let len = u64::from_le_bytes(b8) as usize;
+                            if let Some(prov) = alloc.provenance().ptrs().get(&offset) {
+                                if let mir::interpret::GlobalAlloc::Memory(t) = tcx.global_alloc(prov.alloc_id()) {
+                                    let ta = t.inner();
+                                    let tb = ta.inspect_with_uninit_and_ptr_outside_interpreter(0..ta.len());
+                                    if poff + len <= tb.len() {
+                                        o.set("val", J::s(&String::from_utf8_lossy(&tb[poff..poff + len])));
+                                    }
+                                }
+                            }
+                        }
+                    }
+                }
+                // a tuple constant (e.g. a (&str, &str) header pair): emit its fields
+                if let ty::Tuple(_) = ty.kind() {
+                    if let Some(d) = tcx.try_destructure_mir_constant_for_user_output(v, ty) {
+                        let mut arr = Vec::new();
+                        for (fv, fty) in d.fields.iter() {
+                            let mut fo = J::obj();
+                            fo.set("ty", J::s(&tystr(*fty)));
+                            self.value_json(&mut fo, *fv, *fty);
+                            arr.push(fo);
+                        }
+                        o.set("fields", J::Arr(arr));
+                    }
+                }
             }
         }
     }
